@@ -22,30 +22,18 @@ def perLimiter (s : S) (f : Nat → String) : String := ",".intercalate ((List.r
 
 def glue (ws : List String) : String := " ".intercalate (ws.filter (fun w => !w.isEmpty))
 
-/-- Negative capacities (`New(-1)`, `SetCap(math.MinInt)`) are run through the model by the reduction
-    `capacity ↦ max capacity 0`: every decision of the code compares an amount ≥ 1 with `capacity - used` or with
-    `capacity`, and both are < 1 for a negative capacity exactly as for capacity 0.  Only `Cap()` shows the raw value, so
-    the driver keeps the raw capacities (in creation order) next to the model state. -/
+/-- `rate.New`, `Limiter.New` and `SetCap` store `max(capacity, 0)`: a negative argument (`New(-1)`,
+    `SetCap(math.MinInt)`) is the capacity 0 of the model (capacities are `Nat`), and `Cap()` reports 0 for it. -/
 structure DS where
   s : S
-  raw : List Int
 
-def DS.rawOf (d : DS) (x : Nat) : Int := d.raw.getD x 0
-
-def DS.setRaw (d : DS) (l : Nat) (c : Int) : DS := { d with raw := d.raw.set l c }
-
-/-- `Cap(apply)`: the model's `capOf` whenever no negative capacity is involved, the same minimum over the raw values
-    otherwise -/
-def DS.capStr (d : DS) (l : Nat) (ap : Bool) : String :=
-  if (d.s.chain l).all (fun x => decide (0 ≤ d.rawOf x)) then toString (capOf d.s l ap)
-  else if ap then toString ((d.s.chain l).foldl (fun m x => min m (d.rawOf x)) (d.rawOf l))
-  else toString (d.rawOf l)
+def DS.capStr (d : DS) (l : Nat) (ap : Bool) : String := toString (capOf d.s l ap)
 
 def step (st : Option DS) (line : String) : Option DS × String :=
   match words line, st with
   | ["reset", c], _ =>
     match c.toInt? with
-    | some c => (some ⟨init c.toNat, [c]⟩, "reset")
+    | some c => (some ⟨init c.toNat⟩, "reset")
     | none => (st, "bad-op")
   | _, none => (none, "bad-op")
   | ["new", p, c], some d =>
@@ -54,7 +42,7 @@ def step (st : Option DS) (line : String) : Option DS × String :=
     | some p, some c =>
       if p < s.n then
         let s' := exec s (.newChild p c.toNat)
-        if s'.n = s.n then (some { d with s := s' }, "nil") else (some ⟨s', d.raw ++ [c]⟩, "ok " ++ toString s.n)
+        if s'.n = s.n then (some { d with s := s' }, "nil") else (some ⟨s'⟩, "ok " ++ toString s.n)
       else (st, "bad-handle")
     | _, _ => (st, "bad-op")
   | ["use", l, a], some d =>
@@ -92,7 +80,7 @@ def step (st : Option DS) (line : String) : Option DS × String :=
   | ["setcap", l, c], some d =>
     match l.toNat?, c.toInt? with
     | some l, some c =>
-      if l < d.s.n then (some ((DS.setRaw { d with s := exec d.s (.setCap l c.toNat) } l c)), "ok") else (st, "bad-handle")
+      if l < d.s.n then (some { d with s := exec d.s (.setCap l c.toNat) }, "ok") else (st, "bad-handle")
     | _, _ => (st, "bad-op")
   | ["last", l], some d =>
     match l.toNat? with
